@@ -202,6 +202,18 @@ def compare(name, blk, ss, shocks, T, out, ss_initial=None, Dbeg0=None):
             ref = np.array([np.vdot(Dp[t], dated[t][o]) for t in range(T)]) - ss[O]
             if len(imp[O]) != T or np.abs(imp[O] - ref).max() > 1e-8 * max(1, abs(ss[O]), np.abs(ref).max()):      # sums of ~1e3 products of masses and grid values up to ~1e2
                 C.push(out, dict(what=f'aggregate {O} is not the date-t distribution-weighted sum of the date-t outcome', input=dict(inp, output=O), signature=dict(op='aggregate', block=name)))
+    # the monotone-policy variant of the lottery (option monotonic=True) must give the same paths whenever the policies are monotone in assets (they are, for these households)
+    from sequence_jacobian.blocks.het_block import HetBlock
+    if isinstance(blk, HetBlock) and len(blk.policy) == 1 and all(np.all(np.diff(got[p], axis=-1) >= -1e-12) for p in blk.policy):
+        try:
+            impm = blk.impulse_nonlinear(ss, shocks, internals={blk.name: ['D', 'Dbeg']}, monotonic=True, **kw)
+            dev = max(float(np.abs(impm.internals[blk.name][k] - imp.internals[blk.name][k]).max()) for k in ('D', 'Dbeg'))
+            deva = max(float(np.abs(impm[O] - imp[O]).max()) for O in blk.outputs if O in imp.toplevel and O in impm.toplevel)
+            if dev > 1e-10 or deva > 1e-8:
+                C.push(out, dict(what='with monotonic=True (monotone policies) the distribution path / aggregates differ from the default lottery', input=dict(inp, option='monotonic=True'), observed=dict(distribution=dev, aggregates=deva),
+                                 signature=dict(op='monotonic-option', block=name)))
+        except Exception as ex:
+            C.push(out, dict(what=f'impulse_nonlinear(..., monotonic=True) raised {type(ex).__name__}: {ex}', input=dict(inp, option='monotonic=True'), signature=dict(op='monotonic-option', block=name, what='raise')))
     if any(not np.array_equal(ss.toplevel[k], v, equal_nan=True) for k, v in ss_snapshot.items()) or any(not np.array_equal(ss.internals[blk.name][k], v, equal_nan=True) for k, v in int_snapshot.items()):
         C.push(out, dict(what='impulse_nonlinear modified the steady state passed in', input=inp, signature=dict(op='ss-mutated', block=name)))
 
